@@ -19,6 +19,8 @@ UNORDERED = ('futures_util::stream::stream::StreamExt::buffer_unordered', 'futur
              'futures_util::stream::try_stream::TryStreamExt::try_buffer_unordered', 'futures_util::stream::try_stream::TryStreamExt::try_for_each_concurrent',
              'futures_util::stream::select_all::select_all', 'futures_util::stream::stream::StreamExt::flat_map_unordered')
 BUFFERED = 'futures_util::stream::stream::StreamExt::buffered'
+UNORDERED_TYPES = ('futures_util::stream::futures_unordered::FuturesUnordered', 'tokio::task::join_set::JoinSet', 'futures_util::stream::select_all::SelectAll',
+                   'futures_util::stream::stream::buffer_unordered::BufferUnordered')
 
 
 def short(b):
@@ -114,6 +116,10 @@ def combinators(facts, cg, writer_bodies):
                 out['buffered'].append({'in': b.q, 'at': t['loc']})
             if gq in UNORDERED:
                 out['unordered'].append({'api': gq, 'in': b.q, 'at': t['loc']})
+        # ... or a value of a completion-order collection, however it was built (collect(), extend())
+        for l, loc_ in enumerate(b.locals):
+            if b.lty(l).get('adt') in UNORDERED_TYPES and not any(u['in'] == b.q and u['api'] == b.lty(l)['adt'] for u in out['unordered']):
+                out['unordered'].append({'api': b.lty(l)['adt'], 'in': b.q, 'at': b.raw.get('span') or b.q})
     return out
 
 
